@@ -37,6 +37,7 @@ var replayAdapters = map[string]func(eng *Engine, a *obAgg, f *Oblig, replay map
 // fixedReplays: obligations whose counterexample is schedule/sequence shaped (not a function input): a hand-written
 // adapter drives the real code through the scenario the failed obligation describes.
 var fixedReplays = map[string]struct{ tmpl, pkg, run string }{
+	"(*Process).Packet/lock/callee-acquires-lock-held-by-caller/BroadcastDKG#0": {"C14_packet_deadlock_test.go.tmpl", "internal/dkg", "TestVerifReplayC14PacketDeadlock"},
 	"(*callbackStore).Put/nonblock/send#0": {"C12_put_blocks_test.go.tmpl", "internal/chain/beacon", "TestVerifReplayC12PutBlocks"},
 	"(*partialCache).Append/post/append-keeps-per-signer-bound": {"C12_cache_bound_test.go.tmpl", "internal/chain/beacon", "TestVerifReplayC12CacheBound"},
 	"(*SyncManager).tryNode/assert/resync-writes-only-the-requested-rounds": {"C10_resync_window_test.go.tmpl", "internal/chain/beacon", "TestVerifReplayC10ResyncWindow"},
